@@ -530,7 +530,8 @@ func (g *G) Config() Config {
 		c.Async = nil
 	}
 	if g.pct("ext") < 30 {
-		c.Ext = rapid.SampledFrom([]string{".obj", ".j", ".data.v1", ".x1"}).Draw(g.t, "ext")
+		// (the empty extension is legal: object files are then named by their uuid alone)
+		c.Ext = rapid.SampledFrom([]string{".obj", ".j", ".data.v1", ".x1", "", ""}).Draw(g.t, "ext")
 	}
 	if c.Compress && g.pct("gzext") < 12 {
 		// an extension that itself ends in .gz is fine as long as compression is on
@@ -893,6 +894,12 @@ func (g *G) Op() Op {
 				c = "and"
 			}
 			op.Aux["derive2"] = g.Leaf(c)
+		}
+		if d1, ok := op.Aux["derive"].(Leaf); ok && d1.Conn == "and" && g.pct("sameandpath") < 50 {
+			// the base search is refined twice on ONE field, before and after the writes
+			if p := docPathIndex[d1.Path]; p.Class != ClsNone && d1.Op != "~=" {
+				op.Aux["derive2"] = Leaf{Conn: "and", Path: d1.Path, Op: pickU(g, []string{"=", "!=", "<=", ">=", d1.Op}, "sameandop"), V: g.Val(p)}
+			}
 		}
 		if tagged {
 			op.Aux["derive"] = Leaf{Conn: "or", Path: "S", Op: "=", V: Val{K: "s", S: tagVals[2]}}
